@@ -306,30 +306,36 @@ def intTok (startIsZero : Bool) (ds : List Nat) (n : Nat) : Sub :=
   | none => .error (panicErr n)
   | some v => if startIsZero && v != 0 then .error ⟨.otherInvalidToken, n, n⟩ else .ok (.int v, n)
 
+/-- the float branch of `lex_normal_number`, after the leading `radix_run(10)` produced the digits
+    `v1` and consumed `n1` characters of `inp` -/
+def floatTail (inp : List Nat) (v1 : List Nat) (n1 : Nat) : Sub :=
+  match fracPart v1 n1 (inp.drop n1) with
+  | .error e => .error e
+  | .ok (v2, n2) =>
+    match expPart v2 n2 (inp.drop n2) with
+    | .error e => .error e
+    | .ok (v3, n3) =>
+      if !floatTextOk v3 then .error ⟨.otherInvalidDecimal, n3, n3⟩
+      else match inp.drop n3 with
+        | c :: _ => if isJ c then .ok (.complex v3, n3 + 1) else .ok (.float v3, n3)
+        | [] => .ok (.float v3, n3)
+
+/-- the integer / imaginary-integer branch of `lex_normal_number` -/
+def intTail (inp : List Nat) (startIsZero : Bool) (v1 : List Nat) (n1 : Nat) : Sub :=
+  match inp.drop n1 with
+  | c :: _ =>
+    if isJ c then
+      -- `f64::from_str(&value_text).unwrap()`
+      if floatTextOk v1 then .ok (.complex v1, n1 + 1) else .error (panicErr (n1 + 1))
+    else intTok startIsZero v1 n1
+  | [] => intTok startIsZero v1 n1
+
 /-- `lex_normal_number` -/
 def lexNormalNumber (inp : List Nat) : Sub :=
-  let startIsZero := inp.head? = some 48
   let r := radixRun 10 inp
   let r1 := inp.drop r.2
-  if r1.head? = some 46 || atExponent r1 then
-    match fracPart r.1 r.2 r1 with
-    | .error e => .error e
-    | .ok (v2, n2) =>
-      match expPart v2 n2 (inp.drop n2) with
-      | .error e => .error e
-      | .ok (v3, n3) =>
-        if !floatTextOk v3 then .error ⟨.otherInvalidDecimal, n3, n3⟩
-        else match inp.drop n3 with
-          | c :: _ => if isJ c then .ok (.complex v3, n3 + 1) else .ok (.float v3, n3)
-          | [] => .ok (.float v3, n3)
-  else
-    match r1 with
-    | c :: _ =>
-      if isJ c then
-        -- `f64::from_str(&value_text).unwrap()`
-        if floatTextOk r.1 then .ok (.complex r.1, r.2 + 1) else .error (panicErr (r.2 + 1))
-      else intTok startIsZero r.1 r.2
-    | [] => intTok startIsZero r.1 r.2
+  if r1.head? = some 46 || atExponent r1 then floatTail inp r.1 r.2
+  else intTail inp (inp.head? = some 48) r.1 r.2
 
 /-- `lex_number` -/
 def lexNumber (inp : List Nat) : Sub :=
